@@ -23,8 +23,11 @@ UNITS = [
       timeout=2400, min_obl=300, unwind=34, unwindset=SLOOPS, closed_by=CLOSED, tier="thorough",
       note="every (value, min_value, exp, min_bits, blind, message length <= 10000, buffer size <= 6000)"),
 ]
-for k in range(19):
-    UNITS.append(U("C09.sign_header_e%d" % k, ["C09"], "harness/C09/sign_impl.c", "h_sign_header", defs=["EXPCASE=%d" % k],
+UNITS.append(U("C09.sign_header_m4", ["C09"], "harness/C09/sign_impl.c", "h_sign_header", defs=["MAXMAN=4"],
       replace=["secp256k1_rangeproof_pub_expand", "secp256k1_rangeproof_genrand"], assumed=SORACLES, functions=SFUNCS + ["secp256k1_rangeproof_getheader_impl"],
-      timeout=2400, min_obl=300, unwind=34, unwindset=SLOOPS, closed_by=CLOSED, tier="thorough", solver="cadical",
-      note="header round trip sign_impl -> getheader_impl, case exponent field = %d (the 19 cases cover every header sign_impl can write)" % k))
+      timeout=900, min_obl=300, unwind=34, unwindset=SLOOPS_B, solver="cadical", bounded="value - min_value < 16 and min_bits <= 4",
+      note="header round trip sign_impl -> real getheader_impl (bytes captured when the random stream is seeded), bounded stand-in"))
+UNITS.append(U("C09.sign_header", ["C09"], "harness/C09/sign_impl.c", "h_sign_header",
+      replace=["secp256k1_rangeproof_pub_expand", "secp256k1_rangeproof_genrand"], assumed=SORACLES, functions=SFUNCS + ["secp256k1_rangeproof_getheader_impl"],
+      timeout=5400, min_obl=300, unwind=34, unwindset=SLOOPS, solver="cadical", tier="thorough", mem_gb=16,
+      note="header round trip for all parameters; NOT COMPLETED at authoring time: the product/quotient relations behind 'getheader accepts' and min' <= value <= max' are beyond the SAT back end (see C09 claim text)"))
